@@ -60,7 +60,20 @@ Exists(op, n) == IF n = 1 THEN op \in {"low", "high", "complement", "and", "or",
 Parse(name) ==        \* <<op, n>> or <<>>
   LET hits == {<<op, n>> \in (UnaryOps \cup BinaryOps \cup TernaryOps \cup CarryOps \cup ConstOps) \X Widths : Exists(op, n) /\ Name(op, n) = name} IN
   IF hits = {} THEN <<>> ELSE CHOOSE h \in hits : TRUE
-JetKnown(name) == name = "verify" \/ Parse(name) # <<>>
+\* two-width families <op>_<a>_<b>: regroupings, slices, paddings and extensions between word sizes
+Name2(op, a, b) == op \o "_" \o ToString(a) \o "_" \o ToString(b)
+Widths2 == {1, 2, 4, 8, 16, 32, 64}
+TwoOps == {"leftmost", "rightmost", "full_left_shift", "full_right_shift", "left_pad_low", "left_pad_high", "left_extend",
+           "right_pad_low", "right_pad_high", "right_extend"}
+Parse2(name) ==
+  LET hits == {<<op, a, b>> \in TwoOps \X Widths2 \X Widths2 : a # b /\ Name2(op, a, b) = name} IN
+  IF hits = {} THEN <<>> ELSE CHOOSE h \in hits : TRUE
+\* one-width families with carry / several operands
+MoreOps == {"full_increment", "full_decrement", "full_multiply", "median"}
+ParseM(name) ==
+  LET hits == {<<op, n>> \in MoreOps \X {8, 16, 32, 64} : Name(op, n) = name} IN
+  IF hits = {} THEN <<>> ELSE CHOOSE h \in hits : TRUE
+JetKnown(name) == name = "verify" \/ Parse(name) # <<>> \/ Parse2(name) # <<>> \/ ParseM(name) # <<>>
 
 OutOf(op, n, x) ==
   LET a == Hi(x, n)  b == Lo(x, n) IN         \* for binary jets x = a ++ b
@@ -93,9 +106,32 @@ OutOf(op, n, x) ==
          CASE op = "maj" -> OrB(OrB(AndB(p, q), AndB(p, r)), AndB(q, r))
            [] op = "ch" -> OrB(AndB(p, q), AndB(NotB(p), r))
            [] OTHER -> XorB(XorB(p, q), r)
+Rep(bit, n) == [i \in 1..n |-> bit]
+OutOf2(op, a, b, x) ==
+  CASE op = "leftmost" -> Hi(x, b)                         \* a-bit word -> its b most significant bits
+    [] op = "rightmost" -> Lo(x, b)
+    [] op \in {"full_left_shift", "full_right_shift"} -> x  \* only the grouping of the a + b bits changes
+    [] op = "left_pad_low" -> ZerosN(b - a) \o x           \* a-bit word -> b-bit word
+    [] op = "left_pad_high" -> OnesN(b - a) \o x
+    [] op = "left_extend" -> Rep(x[1], b - a) \o x          \* sign extension
+    [] op = "right_pad_low" -> x \o ZerosN(b - a)
+    [] op = "right_pad_high" -> x \o OnesN(b - a)
+    [] op = "right_extend" -> x \o Rep(x[a], b - a)
+Median(p, q, r) == IF Lt(p, q) THEN (IF Lt(q, r) THEN q ELSE IF Lt(r, p) THEN p ELSE r)
+                   ELSE (IF Lt(p, r) THEN p ELSE IF Lt(r, q) THEN q ELSE r)
+OutOfM(op, n, x) ==
+  CASE op = "full_increment" -> Add(Tail(x), ZerosN(n), x[1])         \* (bit, word) -> (carry, word + bit)
+    [] op = "full_decrement" -> Sub(Tail(x), ZerosN(n), x[1])
+    [] op = "full_multiply" ->                                          \* ((a, b), (c, d)) -> a * b + c + d on 2n bits
+         LET a == SubSeq(x, 1, n)  b == SubSeq(x, n + 1, 2 * n)  c == SubSeq(x, 2 * n + 1, 3 * n)  d == SubSeq(x, 3 * n + 1, 4 * n)
+             ext(w) == ZerosN(n) \o w IN
+         Tail(Add(Tail(Add(Mul(a, b), ext(c), 0)), ext(d), 0))
+    [] op = "median" -> Median(SubSeq(x, 1, n), SubSeq(x, n + 1, 2 * n), SubSeq(x, 2 * n + 1, 3 * n))
 JetOut(name, x) ==
   IF name = "verify" THEN (IF x = <<1>> THEN <<>> ELSE JetFails)
-  ELSE LET h == Parse(name) IN OutOf(h[1], h[2], x)
+  ELSE IF Parse(name) # <<>> THEN LET h == Parse(name) IN OutOf(h[1], h[2], x)
+  ELSE IF Parse2(name) # <<>> THEN LET h == Parse2(name) IN OutOf2(h[1], h[2], h[3], x)
+  ELSE LET h == ParseM(name) IN OutOfM(h[1], h[2], x)
 
 (* ---- sanity of the definitions themselves (evaluated once by TLC) ---- *)
 B8(k) == [i \in 1..8 |-> (k \div (2 ^ (8 - i))) % 2]
@@ -108,5 +144,6 @@ ASSUME \A x \in {0, 1, 7, 128, 200, 255} : \A y \in {0, 1, 9, 127, 255} :
    /\ JetOut("le_8", B8(x) \o B8(y)) = Bit(x <= y)
    /\ Val(JetOut("increment_8", B8(x))) = x + 1
    /\ JetOut("max_8", B8(x) \o B8(y)) = B8(IF x > y THEN x ELSE y)
+ASSUME JetKnown("leftmost_16_4") /\ JetKnown("right_extend_8_64") /\ JetKnown("full_multiply_64") /\ ~JetKnown("left_shift_8")
 ASSUME JetKnown("add_32") /\ JetKnown("eq_256") /\ ~JetKnown("all_1") /\ JetKnown("xor_xor_1") /\ ~JetKnown("add_1") /\ ~JetKnown("sha_256_block") /\ JetKnown("verify")
 =============================================================================
